@@ -56,6 +56,7 @@ type Obligation struct {
 	NoPanicCheck  bool // escaping panics are expected outcomes, not violations
 	Solver        string
 	NoOverride    map[string]bool // override targets disabled for this obligation
+	LazyMaps      bool // maps=lazy: map inserts with symbolic keys do not fork on key equality (x_c03.go)
 	IdxIte        bool // read buffers at symbolic indices through ite chains instead of case-splitting the index
 	Fn            *ssa.Function
 }
@@ -317,6 +318,7 @@ func obligationsOf(hf *HarnessFile, property string) []*Obligation {
 			PermuteMaps:   kv["permute"] == "true",
 			NoPanicCheck:  kv["nopanic"] == "off",
 			IdxIte:        kv["idx"] == "ite",
+			LazyMaps:      kv["maps"] == "lazy",
 			Solver:        kv["solver"],
 		}
 		if v := kv["nooverride"]; v != "" {
@@ -472,6 +474,7 @@ func (s *Session) newInterp(ob *Obligation, r *ObResult, sol *Solver, decisions 
 		ob:        ob, r: r,
 	}
 	in.allocated = s.ts.ConstU(64, 0)
+	in.seedInitHashApps() // x_c03.go
 	if os.Getenv("VERIF_NOMODELCACHE") == "" {
 		in.models = append(in.models, s.modelPool...)
 	}
